@@ -743,3 +743,99 @@ def group_starts_match(pattern: str, flags: int, name: str) -> Optional[bool]:
         return False
 
     return walk(tree)
+
+
+# ---------------------------------------------------------------------------
+# character-level summaries of a pattern, computed on the syntax tree (assertions consume nothing and are skipped)
+
+PROBE = [chr(c) for c in range(32, 127)] + ["\n", "\t", "\r", "\x0b", "\x0c", "\x1c", "\x1f", "\xa0", "–", "—", "’", "“", "\xa7", "\xb6", "\xe9", "١", "１", " "]
+
+
+def _leaf_pred(name: str, av, icase: bool, dotall: bool) -> Optional[Pred]:
+    if name in ("LITERAL", "NOT_LITERAL"):
+        return Pred(name, av, icase)
+    if name == "ANY":
+        return Pred("ANY_ALL" if dotall else "ANY", None, False)
+    if name == "IN":
+        return Pred("IN", tuple((str(o), a if not isinstance(a, list) else tuple(a)) for o, a in _norm_set(av)), icase)
+    return None
+
+
+def _tree_nullable(items) -> bool:
+    for op, av in items:
+        n = str(op)
+        if n in ("LITERAL", "NOT_LITERAL", "IN", "ANY"):
+            return False
+        if n == "SUBPATTERN" and not _tree_nullable(av[3]):
+            return False
+        if n == "ATOMIC_GROUP" and not _tree_nullable(av):
+            return False
+        if n == "BRANCH" and not any(_tree_nullable(b) for b in av[1]):
+            return False
+        if n in ("MAX_REPEAT", "MIN_REPEAT", "POSSESSIVE_REPEAT") and av[0] > 0 and not _tree_nullable(av[2]):
+            return False
+        if n == "GROUPREF":
+            return False  # conservative for first-sets: treated as opaque, non-empty
+    return True
+
+
+def _walk_leaves(items, icase: bool, dotall: bool, first_only: bool, out: List[Pred]):
+    """collect the consuming leaves of `items` (all of them, or only those that can consume the first character of a match)"""
+    for op, av in items:
+        n = str(op)
+        p = _leaf_pred(n, av, icase, dotall)
+        if p is not None:
+            out.append(p)
+        elif n == "SUBPATTERN":
+            ic = icase
+            if av[1] & re.IGNORECASE:
+                ic = True
+            if av[2] & re.IGNORECASE:
+                ic = False
+            _walk_leaves(av[3], ic, dotall, first_only, out)
+        elif n == "ATOMIC_GROUP":
+            _walk_leaves(av, icase, dotall, first_only, out)
+        elif n == "BRANCH":
+            for b in av[1]:
+                _walk_leaves(b, icase, dotall, first_only, out)
+        elif n in ("MAX_REPEAT", "MIN_REPEAT", "POSSESSIVE_REPEAT"):
+            _walk_leaves(av[2], icase, dotall, first_only, out)
+        elif n in ("AT", "ASSERT", "ASSERT_NOT", "GROUPREF", "GROUPREF_EXISTS"):
+            if n == "GROUPREF_EXISTS":
+                for b in av[1:]:
+                    if b:
+                        _walk_leaves(b, icase, dotall, first_only, out)
+        else:
+            raise AnalysisError(f"unsupported regex node {n}")
+        if first_only and not _tree_nullable([(op, av)]):
+            return
+
+
+def alphabet(pattern: str, flags: int = 0, probe: Sequence[str] = PROBE) -> Set[str]:
+    """the probe characters some consuming atom of the pattern accepts (an over-approximation of the characters a match can contain)"""
+    out: List[Pred] = []
+    _walk_leaves(parse(pattern, flags), bool(flags & re.IGNORECASE), bool(flags & re.DOTALL), False, out)
+    return {c for c in probe if any(p.matches(c) for p in out)}
+
+
+def first_chars(pattern: str, flags: int = 0, probe: Sequence[str] = PROBE) -> Set[str]:
+    """the probe characters with which a non-empty match of the pattern can begin"""
+    out: List[Pred] = []
+    _walk_leaves(parse(pattern, flags), bool(flags & re.IGNORECASE), bool(flags & re.DOTALL), True, out)
+    return {c for c in probe if any(p.matches(c) for p in out)}
+
+
+def top_branches(pattern: str, flags: int = 0) -> List[Any]:
+    """the alternatives of the pattern's outermost alternation (through non-capturing / capturing group wrappers); [tree] if there is none"""
+    t = list(parse(pattern, flags))
+    while len(t) == 1 and str(t[0][0]) in ("SUBPATTERN", "ATOMIC_GROUP"):
+        t = list(t[0][1][3] if str(t[0][0]) == "SUBPATTERN" else t[0][1])
+    if len(t) == 1 and str(t[0][0]) == "BRANCH":
+        return [list(b) for b in t[0][1][1]]
+    return [t]
+
+
+def tree_alphabet(items, icase: bool = False, probe: Sequence[str] = PROBE) -> Set[str]:
+    out: List[Pred] = []
+    _walk_leaves(items, icase, False, False, out)
+    return {c for c in probe if any(p.matches(c) for p in out)}
